@@ -280,3 +280,11 @@ M('c15-expires-astimezone-unconditional', 'C15', 'R4', 'falcon/response.py',
 """)
 M('c15-secure-filename-word-class', 'C15', 'R10', 'falcon/util/misc.py',
   "_UNSAFE_CHARS = re.compile(r'[^a-zA-Z0-9.-]')", "_UNSAFE_CHARS = re.compile(r'[^\\w.-]')")
+
+M('c15-append-header-truthiness-of-current', 'C15', 'R12', 'falcon/response.py',
+  """            if name in self._headers:
+                value = self._headers[name] + ', ' + value
+""", """            current = self._headers.get(name)
+            if current:
+                value = current + ', ' + value
+""")
